@@ -119,4 +119,133 @@ func main() {
 	}
 	a, c := sem.Fib(95) // wraps
 	eq("gen_Fib (95)%Z", fmt.Sprintf("(%s, %s)", z(int64(a)), z(int64(c))))
+	// ---- loops with fuel
+	opt := func(s string) string { return "Some (" + s + ")" }
+	for _, x := range []float64{0.75, 3, 10, 12.5} {
+		n++
+		fmt.Printf("Example t%d : match gen_WhileDouble 100 %s with Some r => Qeq_bool r %s | None => false end = true. Proof. vm_compute. reflexivity. Qed.\n", n, q(x), q(sem.WhileDouble(x)))
+	}
+	eq("gen_WhileDouble 3 "+q(0.75), "None")
+	eq("gen_WhileDouble 4 "+q(0.75), "None")
+	n++
+	fmt.Printf("Example t%d : match gen_WhileDouble 5 %s with Some r => Qeq_bool r %s | None => false end = true. Proof. vm_compute. reflexivity. Qed.\n", n, q(0.75), q(sem.WhileDouble(0.75)))
+	for _, k := range []int{1, 2, 6, 7, 27, 97} {
+		eq("gen_Collatz 200 "+z(int64(k)), opt(z(int64(sem.Collatz(k)))))
+		eq("gen_UseCollatz 200 "+z(int64(k)), opt(z(int64(sem.UseCollatz(k)))))
+	}
+	eq("gen_Collatz 111 (27)%Z", "None")
+	eq("gen_Collatz 112 (27)%Z", opt(z(int64(sem.Collatz(27)))))
+	eq("gen_UseCollatz 50 (27)%Z", "None")
+	for _, k := range []int{0, 1, 5, 10, 11} {
+		eq("gen_SkipSum 100 "+z(int64(k)), opt(z(int64(sem.SkipSum(k)))))
+	}
+	for _, p := range [][2]int{{2, 100}, {3, 1}, {10, 0}, {0, 5}, {1 << 31, 1 << 62}} {
+		a, c := sem.FirstPow(p[0], p[1])
+		eq(fmt.Sprintf("gen_FirstPow 100 %s %s", z(int64(p[0])), z(int64(p[1]))), opt(fmt.Sprintf("%s, %s", z(int64(a)), b(c))))
+	}
+	eq("gen_FirstPow 3 (2)%Z (100)%Z", "None")
+	for _, l := range [][]int{{}, {1}, {6, 7, 3}, {6, 27, 3}, {97, 1}} {
+		eq("gen_SumCollatz 200 "+zl(l), opt(z(int64(sem.SumCollatz(l)))))
+	}
+	eq("gen_SumCollatz 10 "+zl([]int{6, 7, 3}), "None")
+	for _, p := range [][2]int{{0, 5}, {4, 6}, {12, 18}, {7, 0}} {
+		eq(fmt.Sprintf("gen_Gcds 50 %s %s", z(int64(p[0])), z(int64(p[1]))), opt(z(int64(sem.Gcds(p[0], p[1])))))
+	}
+	eq("gen_Gcds 3 (12)%Z (18)%Z", "None")
+	// ---- devirtualised interface argument, interface{} result, decimal literal
+	for _, p := range [][2]int{{2, 0}, {2, 4}, {-3, 5}} {
+		eq(fmt.Sprintf("gen_UseApply %s %s", z(int64(p[0])), z(int64(p[1]))), z(int64(sem.UseApply(p[0], p[1]))))
+	}
+	eq("gen_Apply (fun i => (7 * i)%Z) (4)%Z", "(42)%Z")
+	for _, x := range []float64{1.5, -2, 0} {
+		qeq("gen_UseAny "+q(x), q(sem.UseAny(x)))
+	}
+	for _, x := range []float64{10, 20, 0, -50} {
+		qeq("gen_Tenth "+q(x), q(sem.Tenth(x)))
+	}
+	// ---- second batch
+	for _, p := range []struct {
+		xs []int
+		k  int
+	}{{nil, 3}, {[]int{1, -2, 3}, 7}} {
+		eq(fmt.Sprintf("gen_AppendSq %s %s", zl(p.xs), z(int64(p.k))), zl(sem.AppendSq(p.xs, p.k)))
+	}
+	ws := []float64{1.5, 2, -0.25, 8, 3}
+	for _, p := range [][2]int{{0, 5}, {1, 2}, {4, 1}, {2, 0}} {
+		qeq(fmt.Sprintf("gen_Window %s %s %s", ql(ws), z(int64(p[0])), z(int64(p[1]))), q(sem.Window(ws, p[0], p[1])))
+	}
+	for _, p := range [][2][]int{{{1, 2, 3}, {9}}, {{1, 2}, {7, 8, 9}}, {{}, {1}}, {{4, 5}, {}}} {
+		eq(fmt.Sprintf("gen_CopyInto %s %s", zl(p[0]), zl(p[1])), zl(sem.CopyInto(p[0], p[1])))
+	}
+	eq("gen_NilOrLen (@nil Q)", z(int64(sem.NilOrLen(nil))))
+	for _, k := range []int{1, 2, 5} {
+		eq("gen_NilOrLen "+ql(ws[:k]), z(int64(sem.NilOrLen(ws[:k]))))
+	}
+	for _, x := range []float64{2.75, -2.75, 0, 5, -0.5} {
+		ip, fr := sem.ModfParts(x)
+		n++
+		fmt.Printf("Example t%d : (let '(a, b) := gen_ModfParts %s in (Qeq_bool a %s, Qeq_bool b %s)) = (true, true). Proof. vm_compute. reflexivity. Qed.\n", n, q(x), q(ip), q(fr))
+	}
+	for _, k := range []int{-4, 0, 1, 15, 16, 17} {
+		r, err := sem.SqrtInt(k)
+		e := "None"
+		if err != nil {
+			e = "Some 77%N"
+		}
+		eq(fmt.Sprintf("gen_SqrtInt 77%%N 100 %s", z(int64(k))), opt(fmt.Sprintf("%s, %s", z(int64(r)), e)))
+	}
+	eq("gen_SqrtInt 77%N 3 (16)%Z", "None")
+	for _, p := range [][2]float64{{0.5, 3}, {-1, 0.25}, {2, -8}} {
+		qeq(fmt.Sprintf("gen_Closures %s %s", q(p[0]), q(p[1])), q(sem.Closures(p[0], p[1])))
+	}
+	for _, k := range []int{0, -5, 41} {
+		eq("gen_DebugOff "+z(int64(k)), z(int64(sem.DebugOff(k))))
+	}
+	for _, p := range [][2]int{{1, 0}, {3, 4}, {-3, 62}, {1, 63}, {5, 64}, {-1, 3}} {
+		eq(fmt.Sprintf("gen_ShiftL %s %s", z(int64(p[0])), z(int64(p[1]))), z(int64(sem.ShiftL(p[0], p[1]))))
+	}
+	// the opaque sort.Float64s is instantiated with an insertion sort written in Gallina (SemTest.v preamble)
+	for _, l := range [][]float64{{3}, {2, 1}, {5, -1, 4, 0.5, 2}} {
+		qeq("gen_SortedMid qsort "+ql(l), q(sem.SortedMid(l)))
+	}
+	for _, l := range [][]int{{}, {1, -2, 7, 3}, {-1, -1}, {7, 7, 5}} {
+		eq("gen_SumSkip "+zl(l), z(int64(sem.SumSkip(l))))
+	}
+	for _, p := range []struct {
+		xs  []int
+		lim int
+	}{{[]int{2, 4, 6}, 1}, {[]int{1, 2, 9, 11}, 5}, {[]int{3, 5}, 10}, {nil, 0}} {
+		eq(fmt.Sprintf("gen_FirstBig %s %s", zl(p.xs), z(int64(p.lim))), z(int64(sem.FirstBig(p.xs, p.lim))))
+	}
+	// ---- recursive closures (go_rec)
+	for _, l := range [][]int{{}, {5}, {1, 2, 3}, {4, -9, 7, 100, 3}} {
+		eq("gen_RecSum 50 "+zl(l), opt(z(int64(sem.RecSum(l)))))
+	}
+	eq("gen_RecSum 3 "+zl([]int{1, 2, 3}), "None")
+	eq("gen_RecSum 4 "+zl([]int{1, 2, 3}), opt(z(int64(sem.RecSum([]int{1, 2, 3})))))
+	tl, tr := []int{1, 3, -1, -1, -1, -1}, []int{2, 4, 5, -1, -1, -1}
+	for _, r := range []int{0, 1, 2, 5, -1, 9} {
+		o, d := sem.TreeOrder(tl, tr, r)
+		eq(fmt.Sprintf("gen_TreeOrder 20 %s %s %s", zl(tl), zl(tr), z(int64(r))), opt(fmt.Sprintf("%s, %s", zl(o), z(int64(d)))))
+	}
+	eq(fmt.Sprintf("gen_TreeOrder 3 %s %s (0)%%Z", zl(tl), zl(tr)), "None")
+	off, adj := []int{0, 2, 4, 5, 6, 6}, []int{1, 2, 3, 0, 3, 1}
+	for _, r := range []int{0, 1, 2, 3, 4} {
+		eq(fmt.Sprintf("gen_Reach 20 %s %s %s", zl(off), zl(adj), z(int64(r))), opt(zl(sem.Reach(off, adj, r))))
+	}
+	eq(fmt.Sprintf("gen_Reach 2 %s %s (0)%%Z", zl(off), zl(adj)), "None")
+	// ---- a function that returns a closure (uncurried), comma-ok assertion, method value
+	for _, p := range [][2]int{{3, 10}, {1, 0}, {5, 23}, {2, 7}} {
+		eq(fmt.Sprintf("gen_MakeScale (fun x => (100 - x)%%Z) false (fun x => (2 * x + 1)%%Z) 40 %s %s", z(int64(p[0])), z(int64(p[1]))),
+			opt(z(int64(sem.MakeScale(sem.Dbl{}, p[0])(p[1])))))
+		eq(fmt.Sprintf("gen_MakeScale (fun x => (100 - x)%%Z) true (fun x => (2 * x + 1)%%Z) 40 %s %s", z(int64(p[0])), z(int64(p[1]))),
+			opt(z(int64(sem.MakeScale(sem.Quick{}, p[0])(p[1])))))
+	}
+	eq("gen_MakeScale (fun x => (100 - x)%Z) false (fun x => (2 * x + 1)%Z) 2 (1)%Z (7)%Z", "None")
+	// ---- goto found out of a search loop
+	for _, p := range [][2][]int{{{1, 2, 3}, {2, 5, 5, 1, 7}}, {{}, {4, 4}}, {{9}, {}}, {{3, 3}, {3, 8}}} {
+		eq(fmt.Sprintf("gen_AddUnique %s %s", zl(p[0]), zl(p[1])), zl(sem.AddUnique(append([]int{}, p[0]...), p[1])))
+		a, l := sem.CountNew(append([]int{}, p[0]...), p[1])
+		eq(fmt.Sprintf("gen_CountNew %s %s", zl(p[0]), zl(p[1])), fmt.Sprintf("(%s, %s)", z(int64(a)), z(int64(l))))
+	}
 }
